@@ -985,6 +985,8 @@ func (e *SpecEnv) pureCall(f SV, args []Expr) SV {
 			if at.Sort != ps {
 				if bb, ok := av.Ty.(*types.Basic); ok && bb.Kind() == types.UntypedNil {
 					at = e.nilOf(ps)
+				} else if ps == SIfc && av.Ty != nil {
+					at = e.h.toIface(at, av.Ty) // implicit conversion to an interface parameter
 				}
 			}
 		}
